@@ -756,15 +756,23 @@ func fontWeight(computer *ComputedStyle, _ pr.KnownProp, _value pr.CssProperty) 
 	case "bold":
 		out = 700
 	case "bolder":
-		parentValue := computer.parentStyle.GetFontWeight().Int
-		out = fontWeightRelative.bolder[parentValue]
+		out = fontWeightRelative.bolder[parentFontWeight(computer)]
 	case "lighter":
-		parentValue := computer.parentStyle.GetFontWeight().Int
-		out = fontWeightRelative.lighter[parentValue]
+		out = fontWeightRelative.lighter[parentFontWeight(computer)]
 	default:
 		out = value.Int
 	}
 	return pr.IntString{Int: out}
+}
+
+// parentFontWeight returns the weight "bolder" and "lighter" are relative to:
+// the parent's computed weight, or the initial value on the root element
+// (which inherits the initial values).
+func parentFontWeight(computer *ComputedStyle) int {
+	if computer.parentStyle == nil {
+		return pr.InitialValues.GetFontWeight().Int
+	}
+	return computer.parentStyle.GetFontWeight().Int
 }
 
 // Compute track breadth.
